@@ -911,7 +911,7 @@ var propHistories = &kit.Prop[Case]{
 }
 
 func TestHistories(t *testing.T) {
-	n := kit.N(1500, 12000)
+	n := kit.N(1200, 12000)
 	if kit.Race() {
 		n = 100
 	}
@@ -1001,6 +1001,9 @@ func TestManyStreamIDs(t *testing.T) {
 	}
 	propManyIDs.Enumerate(t, func(yield func(Case) bool) {
 		for _, n := range []int{260, 600} {
+			if n == 600 && !kit.Thorough() {
+				continue
+			}
 			for _, rev := range []bool{false, true} {
 				used := []Op{{K: "send", Pad: -1, N: 16384}, {K: "send", Pad: -1, N: 16384}, {K: "send", Pad: -1, N: 16384},
 					{K: "churn", Pad: -1, N: n}, {K: "wu", Pad: -1, S: -1, N: 1 << 20},
